@@ -699,3 +699,252 @@ Proof.
       rewrite F1. exact S1.
     + now apply L3.
 Qed.
+
+Theorem offsets_exact_lemma dbg cx root st0 st ops :
+  calc dbg (wc_enc cx) root st0 = Ok st ->
+  wc_codes cx = cs_codes st ->
+  write_die dbg cx root (cs_off st0) = Ok ops ->
+  NoDup (die_ids root) -> die_expr_ok root ->
+  cs_off st0 + ops_len ops < 2 ^ 64 ->
+  cs_off st = cs_off st0 + ops_len ops /\
+  map fst (ops_marks (cs_off st0) ops) = die_ids root /\
+  (forall i p, In (i, p) (ops_marks (cs_off st0) ops) -> nth_error (cs_entries st) i = Some p).
+Proof.
+  intros HC Hcodes HW HN HX HB.
+  apply (agree_all dbg cx root st0 st ops HC HW); try assumption.
+  intros i _. now rewrite Hcodes.
+Qed.
+
+(* ------------------------------------------------------------------ write_at / patches *)
+
+Lemma firstn_blen_app (pre rest : list byte) : firstn (N.to_nat (UnitWr.blen pre)) (pre ++ rest) = pre.
+Proof.
+  unfold UnitWr.blen. rewrite Nat2N.id. rewrite firstn_app, Nat.sub_diag, firstn_all. cbn. apply app_nil_r.
+Qed.
+
+Lemma write_at_app (pre old tail b : list byte) :
+  length old = length b ->
+  write_at (pre ++ old ++ tail) (UnitWr.blen pre) b = Ok (pre ++ b ++ tail).
+Proof.
+  intros L. unfold write_at.
+  assert (E1 : (UnitWr.blen (pre ++ old ++ tail) <? UnitWr.blen pre) = false).
+  { rewrite blen_app. apply N.ltb_ge. lia. }
+  rewrite E1.
+  assert (E2 : (UnitWr.blen (pre ++ old ++ tail) - UnitWr.blen pre <? UnitWr.blen b) = false).
+  { rewrite !blen_app. apply N.ltb_ge. unfold UnitWr.blen. rewrite L. lia. }
+  rewrite E2. rewrite firstn_blen_app. f_equal. f_equal. f_equal.
+  unfold UnitWr.blen. rewrite Nat2N.id.
+  rewrite skipn_app. rewrite skipn_all2 by lia. cbn [app].
+  replace (length pre + length b - length pre)%nat with (length b) by lia.
+  rewrite <- L. rewrite skipn_app, skipn_all, Nat.sub_diag. reflexivity.
+Qed.
+
+(* final content of an op list once the unit-relative placeholders hold `f id` *)
+Definition op_resolved (f : eid -> list byte) (o : wop) : list byte :=
+  match o with WUnitRef id _ => f id | _ => op_bytes o end.
+Definition ops_resolved (f : eid -> list byte) (ops : list wop) : list byte := flat_map (op_resolved f) ops.
+
+(* the value Unit::write patches into the placeholder of a reference to `id` *)
+Definition ref_value (dbg be : bool) (unit : nat) (unit_off : N) (entries : list N) (w : N) (id : eid)
+  : option (list byte) :=
+  match unit_offset dbg unit unit_off entries id with
+  | Ok (Some v) => match write_udata be v w with Ok b => Some b | _ => None end
+  | _ => None
+  end.
+
+Lemma patch_unit_refs_spec dbg be unit unit_off entries w (f : eid -> list byte) : forall ops pre post sec',
+  (forall id w', In (WUnitRef id w') ops -> w' = w) ->
+  (forall id b, ref_value dbg be unit unit_off entries w id = Some b -> f id = b) ->
+  patch_unit_refs dbg be unit unit_off entries w (ops_unit_refs (UnitWr.blen pre) ops)
+                  (pre ++ ops_bytes ops ++ post) = Ok sec' ->
+  sec' = pre ++ ops_resolved f ops ++ post /\
+  (forall id w', In (WUnitRef id w') ops -> ref_value dbg be unit unit_off entries w id = Some (f id)).
+Proof.
+  induction ops as [|o r IH]; intros pre post sec' HW Hf H.
+  - cbn in H. injection H as <-. split; [reflexivity|]. intros ? ? [].
+  - assert (HWr : forall id w', In (WUnitRef id w') r -> w' = w) by (intros; eapply HW; right; eassumption).
+    assert (Step : forall bytes, op_bytes o = bytes ->
+              (forall id w', o <> WUnitRef id w') ->
+              patch_unit_refs dbg be unit unit_off entries w (ops_unit_refs (UnitWr.blen (pre ++ bytes)) r)
+                              ((pre ++ bytes) ++ ops_bytes r ++ post) = Ok sec' ->
+              op_resolved f o = bytes ->
+              sec' = pre ++ ops_resolved f (o :: r) ++ post /\
+              (forall id w', In (WUnitRef id w') (o :: r) -> ref_value dbg be unit unit_off entries w id = Some (f id))).
+    { intros bytes Eb Hno H' Er. destruct (IH _ _ _ HWr Hf H') as [A1 A2]. split.
+      - rewrite A1. unfold ops_resolved. cbn [flat_map]. rewrite Er. now rewrite <- !app_assoc.
+      - intros id w' [Hi|Hi]; [exfalso; eapply Hno; eassumption|eauto]. }
+    destruct o as [m|bs|id w'|u0 id0 sz].
+    + apply (Step []); [reflexivity|discriminate| |reflexivity].
+      cbn [ops_unit_refs op_bytes] in H. unfold ops_bytes in *. cbn [flat_map op_bytes] in H.
+      rewrite blen_nil, N.add_0_r in H. now rewrite !app_nil_r.
+    + apply (Step bs); [reflexivity|discriminate| |reflexivity].
+      cbn [ops_unit_refs op_bytes] in H. unfold ops_bytes in *. cbn [flat_map op_bytes] in H.
+      rewrite blen_app. rewrite <- ?app_assoc in *. exact H.
+    + (* a placeholder *)
+      assert (w' = w) by (eapply HW; left; reflexivity). subst w'.
+      cbn [ops_unit_refs op_bytes patch_unit_refs] in H.
+      apply bind_ok_inv in H. destruct H as [t [Et H]].
+      apply bind_ok_inv in H. destruct H as [v [Ev H]].
+      apply bind_ok_inv in H. destruct H as [sec1 [Esec1 H]].
+      destruct t as [v'|]; [|discriminate]. injection Ev as ->.
+      unfold write_udata_at in Esec1. apply bind_ok_inv in Esec1. destruct Esec1 as [b [Eb Esec1]].
+      assert (Rv : ref_value dbg be unit unit_off entries w id = Some b).
+      { unfold ref_value. now rewrite Et, Eb. }
+      assert (Lb : UnitWr.blen b = w) by (eapply write_udata_len; eassumption).
+      unfold ops_bytes in Esec1. cbn [flat_map op_bytes] in Esec1. rewrite <- app_assoc in Esec1.
+      rewrite write_at_app in Esec1.
+      2:{ unfold zeros. rewrite repeat_length. unfold UnitWr.blen in Lb. lia. }
+      injection Esec1 as <-.
+      replace (UnitWr.blen pre + UnitWr.blen (zeros w)) with (UnitWr.blen (pre ++ b)) in H
+        by (rewrite blen_app, zeros_blen; lia).
+      replace (pre ++ b ++ flat_map op_bytes r ++ post) with ((pre ++ b) ++ ops_bytes r ++ post) in H
+        by (unfold ops_bytes; now rewrite <- !app_assoc).
+      destruct (IH _ _ _ HWr Hf H) as [A1 A2]. split.
+      * rewrite A1. unfold ops_resolved. cbn [flat_map op_resolved]. rewrite (Hf _ _ Rv). now rewrite <- !app_assoc.
+      * intros id' w' [Hi|Hi]; [|eauto]. injection Hi as <- <-. now rewrite (Hf _ _ Rv).
+    + apply (Step (zeros sz)); [reflexivity|discriminate| |reflexivity].
+      cbn [ops_unit_refs op_bytes] in H. unfold ops_bytes in *. cbn [flat_map op_bytes] in H.
+      rewrite blen_app. rewrite <- ?app_assoc in *. exact H.
+Qed.
+
+(* ------------------------------------------------------------------ properties of all ops of a DIE tree *)
+
+Lemma attrs_write_forall dbg cx (Q : wop -> Prop) :
+  (forall v ops, av_write dbg cx v = Ok ops -> Forall Q ops) ->
+  forall attrs aops, attrs_write dbg cx attrs = Ok aops -> Forall Q aops.
+Proof.
+  intros HQ. induction attrs as [|[n v] r IH]; intros aops H; cbn [attrs_write] in H.
+  - injection H as <-. constructor.
+  - binds. injection H as <-. apply Forall_app. split; [eapply HQ; eassumption|apply IH; assumption].
+Qed.
+
+Lemma write_die_forall dbg cx (Q : wop -> Prop) :
+  (forall v ops, av_write dbg cx v = Ok ops -> Forall Q ops) ->
+  (forall bs, Q (WB bs)) -> (forall i, Q (WMark i)) ->
+  forall d pos ops, write_die dbg cx d pos = Ok ops -> Forall Q ops.
+Proof.
+  intros HQ HB HM.
+  induction d as [id tag sib attrs ch IH] using die_ind2. intros pos ops H.
+  rewrite write_die_unfold in H.
+  apply bind_ok_inv in H. destruct H as [u0 [_ H]].
+  apply bind_ok_inv in H. destruct H as [code [_ H]].
+  apply bind_ok_inv in H. destruct H as [cb [_ H]]. cbv zeta in H.
+  apply bind_ok_inv in H. destruct H as [aops [Ea H]].
+  assert (Qa := attrs_write_forall dbg cx Q HQ _ _ Ea).
+  destruct ch as [|c r].
+  - injection H as <-. repeat constructor; auto.
+  - apply bind_ok_inv in H. destruct H as [cops [Ec H]].
+    apply bind_ok_inv in H. destruct H as [sibb [Es H]]. injection H as <-.
+    assert (Qc : forall l p o, Forall (fun d => forall pos ops, write_die dbg cx d pos = Ok ops -> Forall Q ops) l ->
+                 write_list dbg cx l p = Ok o -> Forall Q o).
+    { induction l as [|c' r' IHl]; intros p o HF Hl; cbn [write_list] in Hl.
+      - injection Hl as <-. constructor.
+      - binds. injection Hl as <-. inversion HF; subst. apply Forall_app. split; eauto. }
+    assert (Qs : Forall Q sibb).
+    { destruct (sib && has_kids (c :: r)); [binds; injection Es as <-; repeat constructor; auto|injection Es as <-; constructor]. }
+    constructor; [auto|]. constructor; [auto|].
+    apply Forall_app. split; [exact Qs|]. apply Forall_app. split; [exact Qa|].
+    apply Forall_app. split; [eapply Qc; eassumption|repeat constructor; auto].
+Qed.
+
+(* every unit-relative placeholder has the width of the format's word *)
+Lemma av_write_refw dbg cx v ops :
+  av_write dbg cx v = Ok ops ->
+  Forall (fun o => match o with WUnitRef _ w' => w' = wsz (wc_enc cx) | _ => True end) ops.
+Proof.
+  destruct cx as [e be u uoff ents codes line lstr str rng loc].
+  destruct e as [ver fmt asz].
+  intros H.
+  destruct v; unfold av_write in H; cbn [wc_enc wc_be wc_line wc_loc wc_rng wc_str wc_lstr] in H;
+    revert H; unfold_asserts; case_ver ver; destruct fmt; intros H.
+  all: binds; try discriminate.
+  all: try match goal with H : match ?a with AConst _ => _ | ASym _ _ => _ end = _ |- _ => destruct a end.
+  all: try match goal with H : match ?l with Some _ => _ | None => _ end = Ok _ |- _ => destruct l end.
+  all: try match goal with H : match ?r with DSym _ => _ | DEntry _ _ => _ end = _ |- _ => destruct r end.
+  all: try match goal with H : (if valid_size ?s then _ else _) = _ |- _ => destruct (valid_size s) eqn:? end.
+  all: binds; try discriminate.
+  all: try match goal with H : Ok _ = Ok _ |- _ => injection H as <- end.
+  all: repeat constructor.
+Qed.
+
+Lemma write_die_refw dbg cx d pos ops :
+  write_die dbg cx d pos = Ok ops ->
+  forall id w', In (WUnitRef id w') ops -> w' = wsz (wc_enc cx).
+Proof.
+  intros H id w' Hi.
+  assert (F := write_die_forall dbg cx _ (av_write_refw dbg cx) (fun _ => I) (fun _ => I) _ _ _ H).
+  rewrite Forall_forall in F. exact (F _ Hi).
+Qed.
+
+Lemma ops_marks_ge : forall ops pos i p, In (i, p) (ops_marks pos ops) -> pos <= p.
+Proof.
+  induction ops as [|o r IH]; intros pos i p H; cbn [ops_marks] in H; [destruct H|].
+  destruct o; try (apply IH in H; lia).
+  destruct H as [H|H]; [injection H as <- <-; lia|apply IH in H; lia].
+Qed.
+
+Lemma unit_offset_value dbg unit unit_off entries id v :
+  unit_offset dbg unit unit_off entries id = Ok (Some v) ->
+  exists x, nth_error entries (id_idx id) = Some x /\ x <> 0 /\ (unit_off <= x -> v = x - unit_off) /\
+            (dbg = true -> id_unit id = unit).
+Proof.
+  unfold unit_offset. intros H.
+  apply bind_ok_inv in H. destruct H as [o [Eo H]].
+  unfold debug_info_offset in Eo.
+  apply bind_ok_inv in Eo. destruct Eo as [u0 [Ea Eo]].
+  apply bind_ok_inv in Eo. destruct Eo as [x [Ex Eo]].
+  unfold idx_get, unwrap in Ex.
+  destruct (nth_error entries (id_idx id)) as [x'|] eqn:En; [|discriminate]. injection Ex as ->.
+  destruct (x =? 0) eqn:Z; injection Eo as <-; [discriminate|].
+  apply bind_ok_inv in H. destruct H as [r [Er H]]. injection H as <-.
+  exists x. split; [reflexivity|]. split; [now apply N.eqb_neq|]. split.
+  - intros L. rewrite chk_sub_ok in Er by assumption. now injection Er as <-.
+  - intros ->. apply dassert_ok in Ea; [|reflexivity]. symmetry. now apply Nat.eqb_eq.
+Qed.
+
+Lemma calc_nonzero_in_tree dbg e root st0 st i x :
+  calc dbg e root st0 = Ok st ->
+  (forall j y, nth_error (cs_entries st0) j = Some y -> y = 0) ->
+  nth_error (cs_entries st) i = Some x -> x <> 0 -> In i (die_ids root).
+Proof.
+  intros HC HZ Hn Hx. destruct (in_dec Nat.eq_dec i (die_ids root)) as [Hi|Hi]; [exact Hi|].
+  destruct (calc_frame _ _ _ _ _ HC) as [_ [_ F]]. destruct (F i Hi) as [F1 _].
+  rewrite F1 in Hn. apply HZ in Hn. contradiction.
+Qed.
+
+(* every UnitRef placeholder ends up holding the unit-relative offset of the position at which the
+   referenced entry was emitted *)
+Theorem refs_resolve_lemma dbg cx root st0 st ops pre post sec' (f : eid -> list byte) :
+  calc dbg (wc_enc cx) root st0 = Ok st ->
+  wc_codes cx = cs_codes st ->
+  write_die dbg cx root (cs_off st0) = Ok ops ->
+  NoDup (die_ids root) -> die_expr_ok root ->
+  cs_off st0 + ops_len ops < 2 ^ 64 ->
+  (forall j y, nth_error (cs_entries st0) j = Some y -> y = 0) ->
+  UnitWr.blen pre = cs_off st0 -> wc_unit_off cx <= cs_off st0 ->
+  (forall id b, ref_value dbg (wc_be cx) (wc_unit cx) (wc_unit_off cx) (cs_entries st) (wsz (wc_enc cx)) id = Some b -> f id = b) ->
+  patch_unit_refs dbg (wc_be cx) (wc_unit cx) (wc_unit_off cx) (cs_entries st) (wsz (wc_enc cx))
+                  (ops_unit_refs (cs_off st0) ops) (pre ++ ops_bytes ops ++ post) = Ok sec' ->
+  sec' = pre ++ ops_resolved f ops ++ post /\
+  (forall id w', In (WUnitRef id w') ops ->
+     exists p, In (id_idx id, p) (ops_marks (cs_off st0) ops) /\
+               write_udata (wc_be cx) (p - wc_unit_off cx) (wsz (wc_enc cx)) = Ok (f id) /\
+               (dbg = true -> id_unit id = wc_unit cx)).
+Proof.
+  intros HC Hcodes HW HN HX HB HZ Hpre Huoff Hf HP.
+  destruct (offsets_exact_lemma _ _ _ _ _ _ HC Hcodes HW HN HX HB) as [O1 [O2 O3]].
+  rewrite <- Hpre in HP.
+  destruct (patch_unit_refs_spec _ _ _ _ _ _ f ops pre post sec' (write_die_refw _ _ _ _ _ HW) Hf HP) as [A1 A2].
+  split; [exact A1|]. intros id w' Hi. specialize (A2 _ _ Hi).
+  unfold ref_value in A2.
+  destruct (unit_offset dbg (wc_unit cx) (wc_unit_off cx) (cs_entries st) id) as [[v|]| | |] eqn:Eu; try discriminate.
+  destruct (write_udata (wc_be cx) v (wsz (wc_enc cx))) as [b| | |] eqn:Eb; try discriminate.
+  injection A2 as A2.
+  destruct (unit_offset_value _ _ _ _ _ _ Eu) as [x [X1 [X2 [X3 X4]]]].
+  assert (Hin : In (id_idx id) (die_ids root)) by (eapply calc_nonzero_in_tree; eassumption).
+  rewrite <- O2 in Hin. apply in_map_iff in Hin. destruct Hin as [[i p] [Hfst Hin]]. cbn [fst] in Hfst. subst i.
+  assert (Hp := O3 _ _ Hin). rewrite X1 in Hp. injection Hp as ->.
+  assert (Hge := ops_marks_ge _ _ _ _ Hin).
+  exists p. split; [exact Hin|]. split; [|exact X4].
+  rewrite <- X3 by lia. now rewrite Eb, A2.
+Qed.
